@@ -82,13 +82,27 @@ Fixpoint validate_trace (fuel : nat) (cfg : jcfg) (st : cstate) (obs : list (nat
       end
   end.
 
-(* write events: None = not observed for that request *)
-Fixpoint wes_ok (res : list wres) (wes : list (option (option wevent))) : bool :=
-  match res, wes with
-  | [], [] => true
-  | r :: res', o :: wes' =>
-      match o with None => true | Some w => option_eqb we_eqb (r_we r) w end && wes_ok res' wes'
-  | _, _ => false
+(* write events: None = not observed for that request.  The implementation's chunk ids are clock values: both
+   sides name a chunk by its 1-based rank among the non-empty chunks of the partition's final journal *)
+Definition rank_of (j : journal) (cid : N) : N :=
+  N.of_nat (length (filter (fun c => negb (N.eqb (chunk_count c) 0) && N.leb (c_id c) cid) j)).
+Definition rank_we (j : journal) (w : wevent) : wevent :=
+  let '((c1, i1), (c2, i2)) := w in ((rank_of j c1, i1), (rank_of j c2, i2)).
+Definition req_journal (nt : bytes -> outcome bytes) (srv : server) (r : req) : journal :=
+  match r with
+  | DirW tags _ => match nt tags with Ok k => srv_get srv k | _ => [] end
+  | RpcW op => match nt (w_tags op) with Ok k => srv_get srv k | _ => [] end
+  | RawW _ => []
+  end.
+Fixpoint wes_ok (nt : bytes -> outcome bytes) (srv : server) (reqs : list req) (res : list wres) (wes : list (option (option wevent))) : bool :=
+  match reqs, res, wes with
+  | [], [], [] => true
+  | rq :: reqs', r :: res', o :: wes' =>
+      match o with
+      | None => true
+      | Some w => option_eqb we_eqb (option_map (rank_we (req_journal nt srv rq)) (r_we r)) w
+      end && wes_ok nt srv reqs' res' wes'
+  | _, _, _ => false
   end.
 
 Inductive case :=
@@ -145,7 +159,7 @@ Definition check (c : case) : bool :=
       match run (tab_lookup ftab) (tab_lookup ntab) (hist_fuel reqs) cfg [] reqs with
       | Ok (srv, res) =>
           list_eqb Bool.eqb (map r_ack res) acks &&
-          wes_ok res wes &&
+          wes_ok (tab_lookup ntab) srv reqs res wes &&
           forallb (fun '(k, obs) => outcome_eqb (list_eqb revent_eqb) (read_back (kv_lookup kvtab) cfg srv k) obs) reads &&
           forallb (fun '(k, cs) => list_eqb N.eqb (filter (fun n => negb (N.eqb n 0)) (map chunk_count (srv_get srv k))) cs) chunks
       | _ => false
